@@ -164,6 +164,15 @@ def gen_files(c):
         ls = [line() for _ in range(rng.randrange(1, 12))]
         data = b"\n".join(ls) + (b"\n" if rng.random() < 0.8 else b"")
         files.append(data)
+    # long lines (longer than any fixed-size prefix a tool might look at) with one ill-formed byte at the start / middle / very end,
+    # and their well-formed twins; bytes behind a NUL
+    for n in (300, 5000, 70000) if c.tier == "quick" else (300, 5000, 70000, 300000):
+        good = (b"abc \xc3\xa9 \xe2\x82\xac " * (n // 11 + 1))[:n]
+        while not py_is_utf8(good):
+            good = good[:-1]
+        for pos in (0, len(good) // 2, len(good)):
+            files.append(b"ok\n" + good[:pos] + b"\xff" + good[pos:] + b"\n" + good + b"\nend\n")
+    files += [b"a\x00\xff\n", b"\x00\xc0\xaf\nfine\n", b"fine\x00\nfine\x00\xe2\x82\n"]
     # one long file crossing reader buffers
     ls = [line() for _ in range(3000)]
     files.append(b"\n".join(ls) + b"\n")
@@ -355,10 +364,13 @@ def main(argv):
     if rp is not None and rp.get("op") == "remove_invalid_utf8" and rp.get("stdin_hex") is not None:
         files.insert(0, bytes.fromhex(rp["stdin_hex"]))
     model_out = None
+    # the record splitter of Base/Lines.v uses the quadratic List.rev: files with very long lines go to the oracle only
+    for_model = [max([len(l) for l in f.split(b"\n")] or [0]) <= 6000 for f in files]
     if drv is not None:
-        rc, mo, err = run_lines(drv, ["R " + hexs(f) for f in files])
-        if len(mo) == len(files):
-            model_out = mo
+        rc, mo, err = run_lines(drv, ["R " + hexs(f) for f, okm in zip(files, for_model) if okm])
+        if len(mo) == sum(for_model):
+            it = iter(mo)
+            model_out = [next(it) if okm else None for okm in for_model]
         else:
             c.broken.append("driver died on tool-level cases: " + err[-300:])
     tool_dis = 0
@@ -371,7 +383,7 @@ def main(argv):
             c.violation("tool-status: remove_invalid_utf8 ended with %s on a %d-byte input" % (st, len(data)),
                         {"op": "remove_invalid_utf8", "stdin_hex": hexs(data[:2000]), "status": str(st)})
             continue
-        if model_out is not None and model_out[idx] != "OK " + hexs(so):
+        if model_out is not None and model_out[idx] is not None and model_out[idx] != "OK " + hexs(so):
             tool_dis += 1
             if tool_dis == 1:
                 c.broken.append("correspondence remove_invalid_utf8 tool vs model: stdin %s model %s impl %s" % (
@@ -406,7 +418,7 @@ def main(argv):
     #      write exactly the stripped, new, non-delimiter, well-formed lines
     SP = b"\t\n\x0b\x0c\r "
     MAGIC = b"df6fa1abb58549287111ba8d776733e9"
-    for data in files[:40] + [files[-1]]:
+    for data in (files if c.tier == "thorough" else files[:40] + [f for f in files[40:] if len(f) > 250]):
         st, so, se = run_tool([repo_bin("commoncrawl_dedupe")], stdin=data, timeout=60)
         c.count(("ccd", data), nontrivial=len(data) > 0, bucket="tool/commoncrawl_dedupe")
         c.cov["traces_validated_against_impl"] += 1
